@@ -187,3 +187,20 @@ def Textgrid_eraseRegion(self, start, end, doShrink):
     if doShrink is True:
         new.maxTimestamp = start + (self.maxTimestamp - end)
     return new
+
+
+# ---- C15: Textgrid.validate() "returns False exactly when a span mismatch or an out-of-span/out-of-order entry
+# exists" (non-raising modes; tier names are unique by the class invariant of the tier map)
+
+
+def Textgrid_validate(self, reportingMode):
+    if reportingMode not in REPORTING_MODES:
+        raise errors.WrongOption("reportingMode", reportingMode, REPORTING_MODES)
+    ok = True
+    for name in self.tierNames:
+        t = self._tierDict[name]
+        if t.minTimestamp != self.minTimestamp or t.maxTimestamp != self.maxTimestamp:
+            ok = False
+        if not t.validate(reportingMode):
+            ok = False
+    return ok
